@@ -48,6 +48,7 @@ type Scenario struct {
 	Evs         []ModelEv           `json:"evs"`
 	NPlans      int                 `json:"nplans"`
 	Poll        bool                `json:"poll"`
+	PollStatus  bool                `json:"pollstatus"` // the polling reader uses Workstream.Status (the streaming API) instead of Plan
 	SlowStoreUs int                 `json:"slowstore"`
 	ContDelayUs int                 `json:"contdelay"`
 	TimeoutMs   int                 `json:"timeoutms"`
@@ -459,7 +460,7 @@ func runEngine(rec *recorder, sc *Scenario) error {
 	if sc.Poll {
 		for _, pr := range runs {
 			pollWG.Add(1)
-			go poller(ctx, ws, s, pr, stopPoll, &pollWG)
+			go poller(ctx, ws, s, pr, stopPoll, &pollWG, sc.PollStatus)
 		}
 	}
 	for _, pr := range runs {
@@ -551,29 +552,44 @@ func (s *spy) writesCopy() []writeRec {
 }
 
 // poller reads the plan continuously and logs every change of an object's visible state.
-func poller(ctx context.Context, ws *coercion.Workstream, s *sched, pr *planRun, stop chan struct{}, wg *sync.WaitGroup) {
+func poller(ctx context.Context, ws *coercion.Workstream, s *sched, pr *planRun, stop chan struct{}, wg *sync.WaitGroup, viaStatus bool) {
 	defer wg.Done()
 	last := map[string]string{}
 	for _, d := range pr.descs {
 		last[d.Obj] = "NotStarted|0"
 	}
-	for {
+	see := func(p *workflow.Plan) {
+		for _, x := range snapshot(p, pr.nm) {
+			m := x.(ev)
+			v := fmt.Sprintf("%s|%d", m["st"], m["natt"])
+			o := m["obj"].(string)
+			if last[o] != v {
+				last[o] = v
+				s.emit(pr.pl, func() ev { return ev{"ev": "R", "obj": o, "st": m["st"], "natt": m["natt"]} })
+			}
+		}
+	}
+	stopped := func() bool {
 		select {
 		case <-stop:
-			return
+			return true
 		default:
+			return false
 		}
-		p, err := ws.Plan(ctx, pr.id)
-		if err == nil && p != nil {
-			for _, x := range snapshot(p, pr.nm) {
-				m := x.(ev)
-				v := fmt.Sprintf("%s|%d", m["st"], m["natt"])
-				o := m["obj"].(string)
-				if last[o] != v {
-					last[o] = v
-					s.emit(pr.pl, func() ev { return ev{"ev": "R", "obj": o, "st": m["st"], "natt": m["natt"]} })
+	}
+	for !stopped() {
+		if viaStatus {
+			// the streaming API: it ends by itself once the plan it reads is not Running (before Start, after the end)
+			for r := range ws.Status(ctx, pr.id, 150*time.Microsecond) {
+				if r.Err == nil && r.Data != nil {
+					see(r.Data)
+				}
+				if stopped() {
+					return
 				}
 			}
+		} else if p, err := ws.Plan(ctx, pr.id); err == nil && p != nil {
+			see(p)
 		}
 		time.Sleep(150 * time.Microsecond)
 	}
